@@ -123,6 +123,18 @@ def run(ctx):
             mf2 = MassFunction(sigma_8=0.9, z=1.0, **kw)
             if not np.allclose(mf2.sigma / mf.sigma, 0.9 / 0.8 * mf2.growth_factor, rtol=1e-10):
                 viol("sigma-linearity", f"sigma(m) is not linear in sigma_8 and the growth factor (filter {filt})")
+            # ... also where sigma is tiny (high redshift, cluster masses) or large (dwarf masses, high sigma_8)
+            for (s8b, zb, lo, hi) in ((0.6, 25.0, 14.0, 16.0), (1.2, 0.0, 6.0, 8.0), (0.6, 40.0, 13.0, 15.5), (0.8, 12.0, 14.5, 16.0)):
+                if filt != "TopHat" and zb not in (25.0, 0.0):
+                    continue
+                kb = dict(kw, Mmin=lo, Mmax=hi)
+                a0 = MassFunction(sigma_8=0.8, z=0.0, **kb)
+                a1 = MassFunction(sigma_8=s8b, z=zb, **kb)
+                want = s8b / 0.8 * a1.growth.growth_factor(zb) * a0.sigma
+                if not np.allclose(a1.sigma, want, rtol=1e-10, atol=0):
+                    i = int(np.argmax(np.abs(a1.sigma / want - 1)))
+                    viol("sigma-linearity", f"sigma(m) is not linear in sigma_8 and the growth factor (filter {filt}): at m=1e{np.log10(a1.m[i]):.2f}, z={zb}, sigma_8={s8b}: sigma={a1.sigma[i]:.5g} but (s8/0.8)*D(z)*sigma(z=0, s8=0.8)={want[i]:.5g}",
+                         {"filter_model": filt, "z": zb, "sigma_8": s8b, "Mmin": lo, "Mmax": hi})
             tt = Transfer(sigma_8=0.8, **{k: v for k, v in kw.items() if k in ("transfer_model", "lnk_min", "lnk_max", "dlnk")})
             if not np.allclose(mf.power, tt.power, rtol=1e-12):
                 viol("massfunction-vs-transfer-power", f"MassFunction(filter_model={filt}).power differs from Transfer.power for the same parameters")
